@@ -308,6 +308,25 @@ fn spending(cfg: &Cfg, rep: &mut Report, h: u64, steps: usize, to_bound: bool) {
             if got.is_ok() {
                 limit = l;
             }
+        } else if k < 34 && to_bound {
+            // spread the entries over ledgers; once the history is full, move to where the oldest
+            // entries leave the window (one before, at, one after) so that bound and eviction meet
+            let cutoff = cur.saturating_sub(period);
+            let live: Vec<u32> = authorized.iter().filter(|(l, _)| *l > cutoff).map(|x| x.0).collect();
+            let t = if live.len() >= 1000 {
+                let oldest = *live.iter().min().unwrap();
+                (oldest + period).saturating_sub(1) + rng.below(3) as u32
+            } else {
+                cur + 1
+            };
+            if t > cur {
+                w.set_ledger(t);
+                rep.op(format!("ledger -> {t} (live entries {})", live.len()));
+                rep.count("ledger_moves");
+                if live.len() >= 1000 {
+                    rep.count("bound_meets_eviction");
+                }
+            }
         } else if k < 34 && !to_bound {
             let adv = *rng.pick(&[1u32, 1, 2, period.max(1) - 1, period.max(1), period + 1, 3]);
             if adv > 0 {
@@ -381,7 +400,7 @@ fn spending(cfg: &Cfg, rep: &mut Report, h: u64, steps: usize, to_bound: bool) {
 }
 
 pub fn run(cfg: &Cfg, rep: &mut Report) {
-    rep.rule = "(a) exhaustive: simple-threshold example and a weighted-threshold wrapper, n = 1..=5 signers, every threshold 0..=n+1 (weighted: 0,1,total-1,total,total+1 and random, weight maps incl. sums beyond u32::MAX), EVERY subset of the signers (+ an outsider) through can_enforce and enforce, with and without the account's authorization; (b) seeded histories on the spending-limit example: install/uninstall/set limit, 1-3 transfers per ledger with amounts around the remaining room, ledger moves of {1,2,P-1,P,P+1}, malformed and non-transfer contexts, one history per shard driven to the 1000-entry bound. Distinct case = (policy, op, have-vs-threshold class or window position / history length class, outcome).".into();
+    rep.rule = "(a) exhaustive: simple-threshold example and a weighted-threshold wrapper, n = 1..=5 signers, every threshold 0..=n+1 (weighted: 0,1,total-1,total,total+1 and random, weight maps incl. sums beyond u32::MAX), EVERY subset of the signers (+ an outsider) through can_enforce and enforce, with and without the account's authorization; (b) seeded histories on the spending-limit example: install/uninstall/set limit, 1-3 transfers per ledger with amounts around the remaining room, ledger moves of {1,2,P-1,P,P+1}, malformed and non-transfer contexts, one history in every fourth shard (thorough: every shard) driven to the 1000-entry bound with the entries spread over ledgers, then moved to where the oldest entries leave the window. Distinct case = (policy, op, have-vs-threshold class or window position / history length class, outcome).".into();
     thresholds(cfg, rep);
     let nh = cfg.pick(30u64, 250);
     for k in 0..nh {
@@ -391,7 +410,7 @@ pub fn run(cfg: &Cfg, rep: &mut Report) {
         }
     }
     if cfg.runs(60_000) && (cfg.shard % 4 == 0 || cfg.thorough()) {
-        spending(cfg, rep, 60_000, 400, true);
+        spending(cfg, rep, 60_000, 500, true);
     }
     rep.floor_on("spending_enforce_ok", 200, &["enforce:ok"]);
     rep.floor_on("ledger_moves", 50, &["ledger_moves"]);
